@@ -91,7 +91,11 @@ type c17 struct{}
 func (c17) ID() string { return "C17" }
 
 func (c17) Plan(tier string) []fw.Unit {
-	return planEnum("C17", tier, len(c17Preds()), 4)
+	shards := 4
+	if tier == "thorough" {
+		shards = 16
+	}
+	return planEnum("C17", tier, len(c17Preds()), shards)
 }
 
 type c17Fire struct {
@@ -117,7 +121,7 @@ func (c17) Run(u fw.Unit) fw.Result {
 	sql := "SELECT k, count(*) AS c, sum(v) AS s, avg(v) AS a FROM stream GROUP BY k, GLOBAL WINDOW TRIGGER WHEN " + p.SQL
 	maxL := 4
 	if u.Tier == "thorough" {
-		maxL = 5
+		maxL = 6
 	}
 	nsym := 2 * len(c17Vals)
 	idx := 0
@@ -206,7 +210,7 @@ func (c17) Describe(tier string) fw.Description {
 	return fw.Description{
 		Level: "model_checking",
 		Rule: "13 TRIGGER WHEN predicates (one comparison over count(*), count(v), sum, avg, min, max; AND / OR of two; mixed AND-OR precedence; selected and unselected aggregates) x all row sequences of length 1..L over 2 groups x v in {1,2,3,NULL} on the real engine (eager deterministic schedule); oracle: per group, fire exactly at the rows where the predicate holds on the aggregates since the last fire, result = count/sum/avg over exactly those rows plus the group column, then restart; non-trivial = at least one expected fire",
-		Bounds:      map[string]any{"max_len": map[string]int{"quick": 4, "thorough": 5}, "groups": 2, "values": []string{"1", "2", "3", "NULL"}},
+		Bounds:      map[string]any{"max_len": map[string]int{"quick": 4, "thorough": 6}, "groups": 2, "values": []string{"1", "2", "3", "NULL"}},
 		Assumptions: []string{"a predicate over an aggregate that is NULL (no usable input) is not true"},
 	}
 }
